@@ -623,7 +623,7 @@ def judged(W, case, i, m):
 def oracle(ctx, factor, seeds):
     m = mods()
     o = Oracle()
-    n = (1800 if ctx.thorough else 200) * factor + N_CORPUS
+    n = (1800 if ctx.thorough else 300) * factor + N_CORPUS
     for i, W, case, err in stream('oracle', ctx.tier, ctx.seed, n, m):
         if case is None:
             o.count('unbuildable:' + type(err).__name__)
